@@ -142,6 +142,7 @@ Section Sound.
     destruct (Nat.lt_ge_cases (2 * j + 1) (length (L k))).
     - left. split; [assumption|]. apply (L_good k); [lia | apply nth_In; assumption].
     - right. split; [assumption | apply nth_overflow; assumption].
+    Show. Show Existentials.
   Qed.
 
   (* ---- what one accepted combination says about its inputs ---- *)
